@@ -140,3 +140,26 @@ Definition subs_wf (s : state) : Prop :=
 
 (** the paths subscribed to a type *)
 Definition sub_paths (s : state) (ty : N) : list path := map fst (subscribers s ty).
+
+(** outcome of the restart hooks (OnRestarted, OnPrelaunch) of the next restart *)
+Definition restart_hooks_ok (x : actor) : bool :=
+  match a_hooks x with (_, r_ok, p_ok) :: _ => r_ok && p_ok | [] => true end.
+
+(** actor-local data that supervision directives other than Restart must leave alone *)
+Definition same_user_state (x x' : actor) : Prop :=
+  a_state x' = a_state x /\ a_zombie x' = a_zombie x /\ a_restarting x' = a_restarting x /\ a_children x' = a_children x /\
+  a_watchers x' = a_watchers x /\ a_stash x' = a_stash x /\ a_modes x' = a_modes x /\ a_inst x' = a_inst x /\
+  a_decisions x' = a_decisions x /\ a_hooks x' = a_hooks x.
+
+Definition same_queues (x x' : actor) : Prop := a_sq x' = a_sq x /\ a_uq x' = a_uq x /\ a_paused x' = a_paused x.
+
+(** instructions by which user code moves envelopes into / out of the stash *)
+Definition touches_stash (i : instr) : bool :=
+  match i with IAct AStash | IAct (AUnstash _) => true | _ => false end.
+
+(** [keeps_mail st s s']: every context keeps its two queues and its paused flag
+    (and, when [st], its stash) *)
+Definition keeps_mail (st : bool) (s s' : state) : Prop :=
+  forall b y, get s b = Some y -> exists y', get s' b = Some y' /\
+    a_sq y' = a_sq y /\ a_uq y' = a_uq y /\ a_paused y' = a_paused y /\
+    (st = true -> a_stash y' = a_stash y).
